@@ -2,10 +2,12 @@ package sim
 
 import (
 	"container/heap"
+	"crypto/sha256"
 	"errors"
 	"fmt"
 	"net"
 	"net/netip"
+	"os"
 	"sync"
 	"time"
 )
@@ -94,7 +96,12 @@ type netFaults struct {
 	Jitter     time.Duration // uniform extra latency (reordering when > inter-packet gap)
 	SlowPct    int           // percent of datagrams delayed by an extra SlowBy
 	SlowBy     time.Duration
+	// Quantum > 0: deliveries happen at multiples of it only (a receiver that polls its socket, interrupt
+	// coalescing): everything that arrives within one quantum is handed over at the same instant
+	Quantum time.Duration
 }
+
+var dglog = os.Getenv("VERIF_DGLOG") != ""
 
 type simNet struct {
 	mu       sync.Mutex
@@ -118,6 +125,8 @@ type simNet struct {
 	// counters of fired faults
 	stats       map[string]int
 	maxDatagram int
+	nsent       int
+	nh          [32]byte
 	log         *journal
 }
 
@@ -200,6 +209,16 @@ func (n *simNet) route() {
 		if n.onSend != nil {
 			n.onSend(d)
 		}
+		// every datagram enters the run's fingerprint (sender, receiver, content), so that the determinism
+		// check and replays compare the complete traffic, not only what the engine chose to log
+		n.nsent++
+		hh := sha256.New()
+		hh.Write(n.nh[:])
+		fmt.Fprintf(hh, "%s>%s %d %x", d.from, d.to, len(d.data), sum8(d.data))
+		copy(n.nh[:], hh.Sum(nil))
+		if dglog {
+			n.log.logf("DG %s>%s len=%d h=%x", d.from, d.to, len(d.data), sum8(d.data))
+		}
 		key := [2]netip.AddrPort{d.from, d.to}
 		idx := n.linkIdx[key]
 		n.linkIdx[key] = idx + 1
@@ -235,6 +254,10 @@ func (n *simNet) route() {
 			}
 		}
 		d.at = now + lat
+		if q := n.faults.Quantum; q > 0 {
+			d.at = (d.at + q - 1) / q * q
+			n.stats["batched_delivery"]++
+		}
 		heap.Push(&n.pending, d)
 	}
 }
